@@ -57,6 +57,9 @@ pub fn gen_plan(seed: u64, index: usize, _tier: Tier) -> Plan {
     let server_under_test = index % 2 == 0;
     let mut base = base_script(seed, server_under_test);
     base.net.lat_min_us = *rng.pick(&[200u64, 1_000, 5_000]);
+    // a third of the runs: the application is busy between its calls, so streams and datagrams
+    // (own and foreign) are already queued when it asks for the next one
+    base.app_pace_ms = if rng.chance_pm(330) { *rng.pick(&[20u64, 150]) } else { 0 };
     let n = rng.usize(2, 10);
     let mut items = Vec::new();
     let mut tag = 0u32;
@@ -123,7 +126,7 @@ pub fn compile(p: &Plan) -> Script {
         }
     }
     acts.push(Act::Gap);
-    acts.push(Act::Sleep { us: 300_000 });
+    acts.push(Act::Sleep { us: 300_000 + (p.items.len() as u64 + 3) * p.base.app_pace_ms * 1_000 });
     acts.push(Act::CollectStops);
     acts.push(close_capsule_act(p.close_code, b"c17"));
     let mut s = p.base.clone();
